@@ -735,13 +735,10 @@ def stream_synth(ctx: Ctx) -> Stream:
 
 
 def hazardous(decl: list[Any], add: list[Any]) -> bool:
-	"""True when a bare `startswith` on the scopes is not a comparison of element lists for some pair."""
-	allv = [*decl, *add]
-	for d in allv:
-		for a in allv:
-			if a.scope.startswith(d.scope) and a.scope != d.scope and a.scope[len(d.scope)] not in '.#':
-				return True
-			if d.scope.count('#') > 1 or '..' in d.scope or d.scope.endswith(('.', '#')) or d.fullyname.count('#') > 1:
+	"""True when some scope / fullyname is not the encoding of a well-formed key (outside the abstract layer's domain)."""
+	for v in [*decl, *add]:
+		for k in (v.scope, v.fullyname):
+			if k.count('#') > 1 or '..' in k or k.endswith(('.', '#')) or k.startswith(('#', '.')) or '#.' in k or k == '':
 				return True
 	return False
 
@@ -766,6 +763,8 @@ def stream_merge(ctx: Ctx) -> Stream:
 				sc = sc + ('.' if '#' in sc else '#') + rng.choice(flow)
 			if rng.random() < 0.1:
 				sc = rng.choice(['m#f', 'm#ff', 'm#ab', 'm#abc', 'mm#f'])
+			if i % 10 == 9 and rng.random() < 0.4:
+				sc = rng.choice(['m#f..if@1', 'm##f', 'm#f.', '#f', 'm#.f', 'm#f#for@10'])
 			dn = rng.choice(['x', 'xs', 'x', 'ab', 'abc'])
 			vars_.append(pytypes.SimpleNamespace(fullyname=sc + ('.' if '#' in sc else '#') + dn, domain_name=dn, scope=sc))
 		cut = rng.randint(0, len(vars_))
@@ -826,17 +825,10 @@ def stream_merge(ctx: Ctx) -> Stream:
 				haz = False
 			except Exception as e:  # noqa: BLE001
 				continue
-			# id-prefix collisions between flow scopes make the bare startswith differ from the element-wise test: string layer only
-			scopes = sorted({t.split(':')[2] for t in toks if ':' in t})
-			for a in scopes:
-				for b in scopes:
-					sa, sb = common.unhx(a), common.unhx(b)
-					if sb.startswith(sa) and sb != sa and sb[len(sa)] not in '.#':
-						haz = True
 			_ = vs
 			cases.append(({'kind': 'collect', 'hazard': haz}, [('s!\t' if haz else '') + 'collect\t' + ' '.join(toks)], [f'S={out}' if haz else both(out)]))
-	st = common.correspond('merge', cases, 'scope', classify=lambda d: f"{d['kind']}:{'prefix-hazard(string layer only)' if d['hazard'] else 'delimiter-safe(both layers)'}")
-	st.note = 'VarsCollector._merged on fake declarations whose scopes share prefixes (for@10 / for@107, ab / abc) — inputs where the bare startswith is not an element-wise prefix test are compared with the string layer only (they are the witnesses of C08.merged_refines_counterexample); _collect_impl on the function and module blocks of generated nests'
+	st = common.correspond('merge', cases, 'scope', classify=lambda d: f"{d['kind']}:{'malformed-scope(string layer only)' if d['hazard'] else 'wellformed(both layers)'}")
+	st.note = 'VarsCollector._merged on fake declarations whose scopes share string prefixes (for@10 / for@107, ab / abc, m / mm) — both layers; every tenth case may carry a malformed scope (string layer only); _collect_impl on the function and module blocks of generated nests'
 	return st
 
 
